@@ -9,6 +9,9 @@ from replay.common import main
 def scenarios(seed, tier, failed):
     for other in ('assign', 'read', 'augassign'):
         yield {'kind': 'tsa-race', 'other': other, 'timeout': 20}
+    # the other thread uses the same attribute of ANOTHER instance of the class (the descriptor is shared)
+    for other in ('assign', 'read', 'augassign'):
+        yield {'kind': 'tsa-race', 'other': other, 'timeout': 20, 'second_instance': True}
 
 
 def run(sc):
@@ -19,6 +22,9 @@ def run(sc):
 
     obj = K()
     obj.x = 1
+    second = K() if sc.get('second_instance') else obj
+    if sc.get('second_instance'):
+        second.x = 1
     entered, go = threading.Event(), threading.Event()
     errors = []
 
@@ -37,11 +43,11 @@ def run(sc):
     def b():
         try:
             if sc['other'] == 'assign':
-                obj.x = 7
+                second.x = 7
             elif sc['other'] == 'read':
-                _ = obj.x
+                _ = second.x
             else:
-                obj.x += 100
+                second.x += 100
         except Exception as ex:
             errors.append(('B: %s' % sc['other'], repr(ex)))
 
@@ -59,6 +65,11 @@ def run(sc):
         return False, 'statement failed: %s' % (errors,), '__set__' if sc['other'] == 'assign' else 'augassign'
     final = obj.x
     serial = {'assign': {7, 17}, 'read': {11}, 'augassign': {111}}[sc['other']]
+    if sc.get('second_instance'):
+        serial = {11}
+        want2 = {'assign': 7, 'read': 1, 'augassign': 101}[sc['other']]
+        if second.x != want2:
+            return False, 'the other instance reads %r, expected %r' % (second.x, want2), '__set__'
     if final not in serial:
         return False, 'final value %r is not that of any serial order (%s)' % (final, sorted(serial)), '__set__'
     probe = []
